@@ -256,7 +256,7 @@ def run_driver(lines, wd, tag, exe=None, shards=4):
         trace = os.path.join(wd, "trace-%s-%d.ndjson" % (tag, i))
         with open(script, "w") as f:
             f.write("\n".join(parts[i]) + "\n")
-        cmd = "%s %s %s %s %s 2> %s" % (b, script, trace, os.path.join(wd, "run-%s-%d" % (tag, i)), exe or "", os.path.join(wd, "stderr-%s-%d.txt" % (tag, i)))
+        cmd = "VERIF_XHDRS='%s' %s %s %s %s %s 2> %s" % (",".join(response_keys()), b, script, trace, os.path.join(wd, "run-%s-%d" % (tag, i)), exe or "", os.path.join(wd, "stderr-%s-%d.txt" % (tag, i)))
         rc, out = vlib.sh(cmd, timeout=2400, check=False)
         evs = vlib.read_ndjson(trace) if os.path.exists(trace) else []
         if rc != 0 or len(evs) != len(parts[i]):
@@ -271,6 +271,23 @@ def run_driver(lines, wd, tag, exe=None, shards=4):
     for i, evs in enumerate(outs):
         events[i::shards] = evs
     return events
+
+
+_KEYS = []
+
+
+def response_keys():
+    """every key that the CLI / control-client sources of the tree under test look up in a control response: a hostile endpoint
+    is free to send any header line, and these are the ones the client can react to"""
+    if not _KEYS:
+        import glob
+        pat = re.compile(r'fields\s*(?:\.\s*(?:contains|find|count|at)\s*\(|\[)\s*"([A-Za-z0-9_-]{1,40})"')
+        found = set()
+        for f in [os.path.join(vlib.REPO, "src", "main.cpp")] + glob.glob(os.path.join(vlib.REPO, "src", "daemon", "*.cpp")) + \
+                glob.glob(os.path.join(vlib.REPO, "include", "ephemeralnet", "daemon", "*.hpp")):
+            found |= set(pat.findall(open(f, errors="replace").read()))
+        _KEYS.extend(sorted(found)[:120] or ["X-NONE"])
+    return _KEYS
 
 
 def validate(events, wd, tag):
